@@ -60,7 +60,12 @@ def read(xml_text):
                     p = n.find("pitch")
                     if p is None:
                         raise MXError("note without pitch or rest")
-                    pitch = (text(p, "step"), int(text(p, "alter", "0")), int(text(p, "octave")))
+                    try:
+                        pitch = (text(p, "step"), int(text(p, "alter", "0")), int(text(p, "octave")))
+                    except (TypeError, ValueError):
+                        raise MXError("pitch with step %r, alter %r, octave %r" % (text(p, "step"), text(p, "alter", "0"), text(p, "octave")))
+                    if pitch[0] is None:
+                        raise MXError("pitch without step")
                 dur = text(n, "duration")
                 try:
                     q = Fraction(dur) / D
